@@ -26,7 +26,7 @@ theorem c19_source_facts :
     IpcHub.Gen.sniffTimeoutSet = true ∧
     IpcHub.Gen.sniffTimeoutExpr = "time.Duration(int64(config.NetTimeout()) / 3)" ∧
     IpcHub.Gen.serveSequence =
-      ["m.settingsHandler(c)", "muc=newConn(c)",
+      ["muc=newConn(c)",
        "if(m.readTimeout > noTimeout)/_=c.SetReadDeadline(time.Now().Add(m.readTimeout))",
        "range(m.matchers)/range(sl.matchers)/matched=processor(muc.startSniffing())",
        "range(m.matchers)/range(sl.matchers)/if(matched)/muc.doneSniffing()",
